@@ -4,10 +4,14 @@ import Ucan.Props.Tie.ChainTime
 import Ucan.Props.Tie.ChainProofs
 import Ucan.Props.Tie.ChainArgs
 import Ucan.Props.Tie.ChainLoad
-/-! Regenerated-code tie for `executionAllowed` (C01–C05): the four stages run in the model's order and hand the loaded
-delegations from one to the next. `loadProofs` (it talks to the caller's loader), `ToIPLD` (the conversion of the caller's
-arguments) and `matchStatement` (the statement evaluator) are parameters of the regenerated code; `verifyArgs` and
-`Policy.Match` are regenerated themselves. The second theorem instantiates the parameters with the model's functions. -/
+import Ucan.Props.C05
+/-! Regenerated-code tie for `executionAllowed` as a whole (C05, and C01–C04 through it): the regenerated function — with its
+callees `loadProofs`, `verifyProofs`, `verifyTimeBound`, `verifyArgs`, `Policy.Match` regenerated as well — returns nil EXACTLY when
+the model's `executionAllowed` does, i.e. exactly when the proofs load and the chain satisfies the principal, command, time and
+policy clauses of the specification. The statement is about nil / not nil: which error a refused invocation gets, and in which order
+the four stages run, is not part of any property (`ChainAllowedExact` proves the stronger, order-dependent equality for the code
+as it is today; it belongs to no property). The proof composes the four stage ties through `ChainOrder`'s order-independent
+characterisation of the shell. -/
 set_option linter.unusedSimpArgs false
 set_option linter.unusedSectionVars false
 namespace Ucan.Tie
@@ -27,121 +31,109 @@ theorem Inv_executionAllowed_is_shell {S N : Type} (now : Int)
       Gen.Inv_executionAllowed_shell (Gen.Inv_loadProofs extGet) Gen.Inv_verifyProofs (Gen.Inv_verifyTimeBound now)
         (Gen.Inv_verifyArgs extMS extIPLD) g loader a := rfl
 
-/-- `executionAllowed`, regenerated: load, then `verifyProofs`, then `verifyTimeBound` at the instant `now`, then
-`verifyArgs`; the first failing stage decides. The two middle stages are the model's. -/
-theorem Inv_executionAllowed_stages {X : Type} (x : X) (args : Node) (undef : D) (pol) (now : Int)
-    (extGet : L → C → GoM (Gen.DlgTok D Policy.Stmt))
-    (extIPLD : A → GoM Node)
-    (g : Gen.InvTok D C A) (loader : L) (a : A) (hs : g.subject ≠ undef)
-    (hlen : ∀ ds, Gen.Inv_loadProofs extGet g loader = .ok ds → ds.length = g.proof.length) :
-    Gen.Inv_executionAllowed now extGet extMatch extIPLD g loader a =
-      (Gen.Inv_loadProofs extGet g loader >>= fun ds =>
-        liftE (Chain.verifyProofs (toInv x args g) (ds.map (toDlg undef pol))) >>= fun _ =>
-        liftE (Chain.verifyTime now (toInv x args g) (ds.map (toDlg undef pol))) >>= fun _ =>
-        Gen.Inv_verifyArgs extMatch extIPLD g ds a) := by
-  unfold Gen.Inv_executionAllowed Gen.Inv_verifyTimeBound
-  cases hl : Gen.Inv_loadProofs extGet g loader with
-  | error e => simp [bind, Except.bind]
-  | ok ds =>
-    have hlen' := hlen ds hl
-    simp only [bind, Except.bind, pure, Except.pure, liftE,
-      Inv_verifyProofs_eq x args undef pol g ds hs hlen', Inv_verifyTimeBoundAt_eq x args undef pol g ds now hlen']
-    cases Chain.verifyProofs (toInv x args g) (ds.map (toDlg undef pol)) with
-    | error e => simp [Except.mapError]
-    | ok u =>
-      cases Chain.verifyTime now (toInv x args g) (ds.map (toDlg undef pol)) with
-      | error e => simp [Except.mapError]
-      | ok u =>
-        cases Gen.Inv_verifyArgs extMatch extIPLD g ds a <;> simp [Except.mapError]
+theorem mapM_length {α β} (f : α → Option β) : ∀ (cs : List α) ds, cs.mapM f = some ds → ds.length = cs.length := by
+  intro cs
+  induction cs with
+  | nil => intro ds h; simp at h; subst h; rfl
+  | cons c cs ih =>
+    intro ds h
+    simp only [List.mapM_cons] at h
+    cases hc : f c with
+    | none => simp [hc] at h
+    | some d =>
+      cases hm : cs.mapM f with
+      | none => simp [hc, hm] at h
+      | some ds' =>
+        simp [hc, hm] at h
+        subst h
+        simp [ih ds' hm]
 
-/-- with the model's `loadProofs` and statement evaluator for the parameters, the regenerated `executionAllowed` IS the
-model's `executionAllowed` (the function `C01_sound … C05_complete` are about) -/
-theorem Inv_executionAllowed_eq {X : Type} (x : X) (args : Node) (undef : D) (pol) (now : Int)
-    (extGet : L → C → GoM (Gen.DlgTok D Policy.Stmt))
-    (extIPLD : A → GoM Node)
+theorem mapM_mem {α β} (f : α → Option β) : ∀ (cs : List α) ds, cs.mapM f = some ds → ∀ d ∈ ds, ∃ c, f c = some d := by
+  intro cs
+  induction cs with
+  | nil => intro ds h d hd; simp at h; subst h; simp at hd
+  | cons c cs ih =>
+    intro ds h d hd
+    simp only [List.mapM_cons] at h
+    cases hc : f c with
+    | none => simp [hc] at h
+    | some d0 =>
+      cases hm : cs.mapM f with
+      | none => simp [hc, hm] at h
+      | some ds' =>
+        simp [hc, hm] at h
+        subst h
+        rcases List.mem_cons.1 hd with h1 | h1
+        · exact ⟨c, by rw [hc, h1]⟩
+        · exact ih ds' hm d h1
+
+theorem model_loadProofs (undef : D) (pol) (ldG : C → Option (Gen.DlgTok D Policy.Stmt)) : ∀ (cs : List C),
+    Chain.loadProofs (fun c => (ldG c).map (toDlg undef pol)) cs =
+      match cs.mapM ldG with
+      | some ds => .ok (ds.map (toDlg undef pol))
+      | none => .error .missingDelegation := by
+  intro cs
+  induction cs with
+  | nil => simp [Chain.loadProofs]
+  | cons c cs ih =>
+    simp only [Chain.loadProofs, List.mapM_cons]
+    cases hc : ldG c with
+    | none => simp [hc]
+    | some d =>
+      simp only [hc, Option.map_some, ih]
+      cases cs.mapM ldG <;> simp
+
+/-- C01–C05 on the regenerated `executionAllowed`: nil EXACTLY when the proofs load and the chain satisfies the principal,
+command, time and policy clauses of the specification -/
+theorem Inv_executionAllowed_ok_iff_spec {X : Type} (x : X) (args : Node) (undef : D) (pol) (now : Int)
+    (extGet : L → C → GoM (Gen.DlgTok D Policy.Stmt)) (extIPLD : A → GoM Node)
     (ldG : C → Option (Gen.DlgTok D Policy.Stmt))
     (g : Gen.InvTok D C A) (loader : L) (a : A) (hs : g.subject ≠ undef)
-    (hl : LoaderIs extGet loader ldG)
-    (hipld : extIPLD a = .ok args)
+    (hl : LoaderIs extGet loader ldG) (hipld : extIPLD a = .ok args)
     (hpol : ∀ c d, ldG c = some d → d.policy = (pol d).map some) :
-    Gen.Inv_executionAllowed now extGet extMatch extIPLD g loader a =
-      liftE (Chain.executionAllowed (fun c => (ldG c).map (toDlg undef pol)) now (toInv x args g) args) := by
-  have hload := Inv_loadProofs_eq extGet loader ldG hl g
-  have hmodel : ∀ (cs : List C),
-      Chain.loadProofs (fun c => (ldG c).map (toDlg undef pol)) cs =
-        match cs.mapM ldG with
-        | some ds => .ok (ds.map (toDlg undef pol))
-        | none => .error .missingDelegation := by
-    intro cs
-    induction cs with
-    | nil => simp [Chain.loadProofs]
-    | cons c cs ih =>
-      simp only [Chain.loadProofs, List.mapM_cons]
-      cases hc : ldG c with
-      | none => simp [hc]
-      | some d =>
-        simp only [hc, Option.map_some, ih]
-        cases cs.mapM ldG <;> simp
-  have hlenM : ∀ (cs : List C) ds, cs.mapM ldG = some ds → ds.length = cs.length := by
-    intro cs
-    induction cs with
-    | nil => intro ds h; simp at h; subst h; rfl
-    | cons c cs ih =>
-      intro ds h
-      simp only [List.mapM_cons] at h
-      cases hc : ldG c with
-      | none => simp [hc] at h
-      | some d =>
-        cases hm : cs.mapM ldG with
-        | none => simp [hc, hm] at h
-        | some ds' =>
-          simp [hc, hm] at h
-          subst h
-          simp [ih ds' hm]
-  have hmem : ∀ (cs : List C) ds, cs.mapM ldG = some ds → ∀ d ∈ ds, ∃ c, ldG c = some d := by
-    intro cs
-    induction cs with
-    | nil => intro ds h d hd; simp at h; subst h; simp at hd
-    | cons c cs ih =>
-      intro ds h d hd
-      simp only [List.mapM_cons] at h
-      cases hc : ldG c with
-      | none => simp [hc] at h
-      | some d0 =>
-        cases hm : cs.mapM ldG with
-        | none => simp [hc, hm] at h
-        | some ds' =>
-          simp [hc, hm] at h
-          subst h
-          rcases List.mem_cons.1 hd with h1 | h1
-          · exact ⟨c, by rw [hc, h1]⟩
-          · exact ih ds' hm d h1
-  have hlen : ∀ ds, Gen.Inv_loadProofs extGet g loader = .ok ds → ds.length = g.proof.length := by
-    intro ds h
-    rw [hload] at h
-    cases hm : g.proof.mapM ldG with
-    | none => simp [hm] at h
-    | some ds' =>
-      simp [hm] at h
-      subst h
-      exact hlenM _ _ hm
-  rw [Inv_executionAllowed_stages x args undef pol now extGet extIPLD g loader a hs hlen, hload]
-  unfold Chain.executionAllowed
-  have hprf : (toInv x args g).prf = g.proof := rfl
-  rw [hprf, hmodel g.proof]
+    Gen.Inv_executionAllowed now extGet extMatch extIPLD g loader a = .ok () ↔
+      ∃ ds, Chain.loadProofs (fun c => (ldG c).map (toDlg undef pol)) g.proof = .ok ds ∧
+        Chain.PrincipalSpec (toInv x args g) ds ∧ Chain.CommandSpec (toInv x args g) ds ∧
+        Chain.TimeSpec now (toInv x args g) ds ∧ Chain.PolicySpec ds args := by
+  rw [Inv_executionAllowed_is_shell, Inv_executionAllowed_ok_iff, Inv_loadProofs_eq extGet loader ldG hl g, model_loadProofs]
   cases hm : g.proof.mapM ldG with
-  | none => simp [liftE, Except.mapError, bind, Except.bind]
-  | some ds =>
-    have hpol' : ∀ d ∈ ds, d.policy = (pol d).map some := by
+  | none => simp
+  | some gs =>
+    have hlen : gs.length = g.proof.length := mapM_length ldG _ _ hm
+    have hpol' : ∀ d ∈ gs, d.policy = (pol d).map some := by
       intro d hd
-      obtain ⟨c, hc⟩ := hmem g.proof ds hm d hd
+      obtain ⟨c, hc⟩ := mapM_mem ldG _ _ hm d hd
       exact hpol c d hc
-    simp only [bind, Except.bind, liftE, Inv_verifyArgs_eq undef pol extIPLD g ds a args (hlenM _ _ hm) hipld hpol']
-    cases Chain.verifyProofs (toInv x args g) (ds.map (toDlg undef pol)) with
-    | error e => simp [Except.mapError]
-    | ok u =>
-      cases Chain.verifyTime now (toInv x args g) (ds.map (toDlg undef pol)) with
-      | error e => simp [Except.mapError]
-      | ok u => simp [Except.mapError]
+    have e1 : Gen.Inv_verifyProofs g gs = .ok () ↔
+        Chain.PrincipalSpec (toInv x args g) (gs.map (toDlg undef pol)) ∧ Chain.CommandSpec (toInv x args g) (gs.map (toDlg undef pol)) := by
+      rw [Inv_verifyProofs_eq x args undef pol g gs hs hlen, ← Chain.verifyProofs_ok_iff]
+      cases Chain.verifyProofs (toInv x args g) (gs.map (toDlg undef pol)) <;> simp [Except.mapError]
+    have e2 : Gen.Inv_verifyTimeBound now g gs = .ok () ↔ Chain.TimeSpec now (toInv x args g) (gs.map (toDlg undef pol)) := by
+      rw [Inv_verifyTimeBound_eq, Inv_verifyTimeBoundAt_eq x args undef pol g gs now hlen, ← Chain.verifyTime_ok_iff]
+      cases Chain.verifyTime now (toInv x args g) (gs.map (toDlg undef pol)) <;> simp [Except.mapError]
+    have e3 : Gen.Inv_verifyArgs extMatch extIPLD g gs a = .ok () ↔ Chain.PolicySpec (gs.map (toDlg undef pol)) args := by
+      rw [Inv_verifyArgs_eq undef pol extIPLD g gs a args hlen hipld hpol', ← Chain.verifyArgs_ok_iff]
+      cases Chain.verifyArgs (gs.map (toDlg undef pol)) args <;> simp [Except.mapError]
+    constructor
+    · rintro ⟨ds, hds, h1, h2, h3⟩
+      have : ds = gs := (Except.ok.inj hds).symm
+      subst this
+      exact ⟨_, rfl, (e1.1 h1).1, (e1.1 h1).2, e2.1 h2, e3.1 h3⟩
+    · rintro ⟨ds, hds, p1, p2, p3, p4⟩
+      have : ds = gs.map (toDlg undef pol) := (Except.ok.inj hds).symm
+      subst this
+      exact ⟨gs, rfl, e1.2 ⟨p1, p2⟩, e2.2 p3, e3.2 p4⟩
+
+/-- … which is when the model's `executionAllowed` returns nil (`C05_allowed_iff`) -/
+theorem Inv_executionAllowed_ok_iff_model {X : Type} (x : X) (args : Node) (undef : D) (pol) (now : Int)
+    (extGet : L → C → GoM (Gen.DlgTok D Policy.Stmt)) (extIPLD : A → GoM Node)
+    (ldG : C → Option (Gen.DlgTok D Policy.Stmt))
+    (g : Gen.InvTok D C A) (loader : L) (a : A) (hs : g.subject ≠ undef)
+    (hl : LoaderIs extGet loader ldG) (hipld : extIPLD a = .ok args)
+    (hpol : ∀ c d, ldG c = some d → d.policy = (pol d).map some) :
+    Gen.Inv_executionAllowed now extGet extMatch extIPLD g loader a = .ok () ↔
+      Chain.executionAllowed (fun c => (ldG c).map (toDlg undef pol)) now (toInv x args g) args = .ok () := by
+  rw [Inv_executionAllowed_ok_iff_spec x args undef pol now extGet extIPLD ldG g loader a hs hl hipld hpol]
+  exact (Chain.C05_allowed_iff (fun c => (ldG c).map (toDlg undef pol)) now (toInv x args g) args).symm
 
 end Ucan.Tie
